@@ -18,6 +18,8 @@ import (
 // coldStartResult: the very first bitword calls of the process are Get and FirstDiff (no FromStr
 // has run yet), for every width.
 var coldStartResult = func() (msg string) {
+	vk.ArmProbe("C08", Case{Op: "cold-start", N: 1, Class: "the process died during its first calls of the library"})
+	defer vk.DisarmProbe()
 	defer func() {
 		if r := recover(); r != nil {
 			msg = fmt.Sprintf("first use in the process panicked: %v", r)
